@@ -181,6 +181,10 @@ func handlerNodesPump(r *eng.Run, kind byte, D, K, maxStates int, pump bool, per
 		},
 		noPump: !pump,
 	}
+	if !r.Thorough() {
+		// every pumped node runs all strategy vectors: keep the quick tier at 8-byte block lengths
+		sp.pumpN, sp.pumpTail = 9, 8
+	}
 	return runE1(r, sp, D, K, maxStates)
 }
 
